@@ -194,6 +194,9 @@ def oracles_C11(ctx, hints):
         n += 1
         x = rng.randrange(4096)
         e = rng.choice(PAT3[1:])
+        if i % 5 == 4:                                       # the data half arrives all zero: a value of weight <= 3, its bits hit
+            x = rng.choice([v for v in (1, 2, 3, 7, 0x800, 0x801, 0xC01, 0x111, rng.randrange(1, 4096)) if wt(v) <= 3])
+            e = x << 12
         if e >> 12 == 0:                                     # make sure a data bit is hit most of the time
             e |= 1 << rng.randrange(12, 24)
             if wt(e) > 3:
@@ -409,9 +412,15 @@ def check_ptdp_robust(args):
     clean = p.pack() + b"\xAA\xBB"
     bad = _flip3(_flip3(clean, 0, e1), 3, e2)
     a, b = ch7.PTDP(), ch7.PTDP()
+    if args.get("fresh"):                   # a receiver with its own, never used Golay decoder sees the damaged header FIRST
+        b = ch7.PTDP(golay.Golay())
+        try:
+            rb = b.unpack(bad)
+        except Exception as e:
+            return "PTDP.unpack (new decoder) raised %r on a header with %d+%d bit errors (len=%d e1=%#x e2=%#x)" % (e, wt(e1), wt(e2), n, e1, e2)
     ra = a.unpack(clean)
     try:
-        rb = b.unpack(bad)
+        rb = rb if args.get("fresh") else b.unpack(bad)
     except Exception as e:
         return "PTDP.unpack raised %r on a header with %d+%d bit errors (len=%d fragment=%d content=%d, e1=%#x e2=%#x)" % (
             e, wt(e1), wt(e2), n, fr, co, e1, e2)
@@ -434,10 +443,18 @@ def check_ptfr_robust(args):
     clean = f.pack()
     bad = _flip3(clean, 1, e)
     a, b = ch7.PTFR(), ch7.PTFR()
+    if args.get("fresh"):                   # a receiver with its own, never used Golay decoder sees the damaged header FIRST
+        b = ch7.PTFR(golay.Golay())
+        b.length = L
+        try:
+            b.unpack(bad)
+        except Exception as ex:
+            return "PTFR.unpack (new decoder) raised %r on a header word with %d bit errors (offset=%d llp=%s e=%#x)" % (ex, wt(e), off, llp, e)
     a.length = b.length = L
     a.unpack(clean)
     try:
-        b.unpack(bad)
+        if not args.get("fresh"):
+            b.unpack(bad)
     except Exception as ex:
         return "PTFR.unpack raised %r on a header word with %d bit errors (offset=%d llp=%s e=%#x)" % (ex, wt(e), off, llp, e)
     for k in ("version", "streamid", "llp", "ptdp_offset", "payload"):
@@ -497,6 +514,35 @@ def oracles_C20(ctx, hints):
         w = check_ptfr_robust(args)
         if w:
             fails.append(Failure("ptfr_robust", args, w, {"class": "PTFR", "check": "header_robust"}))
+            break
+    # a receiver whose Golay decoder has never been used (the decode tables are built lazily)
+    data_bits = [e for e in PAT3 if e >> 12]
+    light = [v for v in range(1, 2048) if wt(v) <= 3]         # field values of weight <= 3 ...
+    for i in range(0 if fails else ctx.scale(60, 600)):
+        n += 1
+        if i % 2 == 0:
+            off = rng.choice([0, 1, 7, 0x7FE, 0x7FF, rng.randrange(2048)])
+            llp = rng.choice([True, False])
+            e = rng.choice(data_bits)
+            if i % 4 == 0:                                    # ... whose set bits are exactly the ones hit: the data half arrives all zero
+                off = rng.choice(light)
+                llp = wt(off) <= 2 and rng.random() < 0.3
+                e = (off | (llp << 11)) << 12
+            args = {"offset": off, "llp": llp, "e": e, "version": rng.randrange(4), "streamid": rng.randrange(16), "fresh": True}
+            w = check_ptfr_robust(args)
+            name, cls = "ptfr_robust", "PTFR"
+        else:
+            ln = rng.choice([0, 1, 7, 2048, rng.randrange(2049)])
+            e2 = rng.choice(data_bits)
+            if i % 4 == 1:
+                ln = rng.choice(light + [2048])
+                e2 = ln << 12
+            args = {"len": ln, "fragment": rng.randrange(4), "content": rng.randrange(16),
+                    "e1": rng.choice(data_bits) if i % 4 == 3 else 0, "e2": e2, "fresh": True}
+            w = check_ptdp_robust(args)
+            name, cls = "ptdp_robust", "PTDP"
+        if w:
+            fails.append(Failure(name, args, w, {"class": cls, "check": "header_robust", "decoder": "new"}))
             break
     ctx.count("oracle_evaluations", n)
     return fails
